@@ -170,3 +170,170 @@ class SDegView(Sym):
     def _vc_iter(self):
         N = self.g.N
         return SIter(Id, lambda v: N[v], lambda v: (SId(v), SInt(self.deg(v))), count=self.g.cN)
+
+
+# ----------------------------------------------------------------------------------------------------------------
+# reachability (trusted contracts of networkx traversal functions + lemma L2 instances)
+# ----------------------------------------------------------------------------------------------------------------
+Reach = z3.Function("Reach", sym.SetSort(Id), Id, Id, B)  # Reach(S, u, v): a path u ->* v inside the node set S
+
+
+class ReachTheory:
+    """axioms of `Reach` for the node-set terms a function actually talks about (registered on demand), plus the
+    instances of lemma L2 (Lean: lemmas/graph_lemmas.lean) for every ordered pair of registered sets."""
+
+    def __init__(self):
+        self.sets = []
+
+    def register(self, S):
+        for T in self.sets:
+            if z3.eq(T, S):
+                return
+        u, v, w = bv("u!R", Id), bv("v!R", Id), bv("w!R", Id)
+        C.assume(
+            z3.ForAll([u], z3.Implies(S[u], Reach(S, u, u))),
+            z3.ForAll([u, v, w], z3.Implies(z3.And(Reach(S, u, v), E(v, w), S[w]), Reach(S, u, w))),
+            z3.ForAll([u, v, w], z3.Implies(z3.And(Reach(S, v, w), E(u, v), S[u]), Reach(S, u, w))),
+            z3.ForAll([u, v], z3.Implies(Reach(S, u, v), z3.And(S[u], S[v]))),
+            z3.ForAll([u, v], z3.Implies(z3.And(Reach(S, u, v), u != v), z3.Exists([w], z3.And(S[w], E(u, w), Reach(S, w, v))))),
+            z3.ForAll([u, v], z3.Implies(z3.And(Reach(S, u, v), u != v), z3.Exists([w], z3.And(S[w], E(w, v), Reach(S, u, w))))),
+        )
+        for T in self.sets:
+            self._pair(S, T)
+            self._pair(T, S)
+        self.sets.append(S)
+
+    def _pair(self, S, T):
+        """lemma L2 for S subset of T"""
+        u, v, w = bv("u!R", Id), bv("v!R", Id), bv("w!R", Id)
+        sub = z3.ForAll([u], z3.Implies(S[u], T[u]))
+        succ_closed = z3.ForAll([u, w], z3.Implies(z3.And(S[u], E(u, w), T[w]), S[w]))
+        pred_closed = z3.ForAll([u, w], z3.Implies(z3.And(S[w], E(u, w), T[u]), S[u]))
+        C.assume(
+            z3.Implies(sub, z3.ForAll([u, v], z3.Implies(Reach(S, u, v), Reach(T, u, v)))),
+            z3.Implies(z3.And(sub, succ_closed), z3.ForAll([u, v], z3.Implies(z3.And(S[u], Reach(T, u, v)), z3.And(S[v], Reach(S, u, v))))),
+            z3.Implies(z3.And(sub, pred_closed), z3.ForAll([u, v], z3.Implies(z3.And(S[v], Reach(T, u, v)), z3.And(S[u], Reach(S, u, v))))),
+        )
+
+
+def reach_theory():
+    if "reach" not in C.ghost:
+        C.ghost["reach"] = ReachTheory()
+    return C.ghost["reach"]
+
+
+class NetworkXError(Exception):
+    pass
+
+
+def _in_graph(g, t, what):
+    """networkx raises for a node that is not in the graph: modelled as an exception path"""
+    if not C.fork(g.N[t], f"{what}: node in graph"):
+        raise NetworkXError(what)
+
+
+class NxModule(Sym):
+    """the `nx` module as used by tawazi/_dag/digraph.py and dag.py (trusted contracts, DESIGN 3.3)"""
+
+    @staticmethod
+    def dfs_tree(G, source):
+        t = term(source)
+        _in_graph(G, t, "dfs_tree")
+        reach_theory().register(G.N)
+        N = G.N
+
+        class _T(Sym):
+            def nodes(self):
+                return SIter(Id, lambda v: Reach(N, t, v), lambda v: SId(v))
+
+        return _T()
+
+    @staticmethod
+    def ancestors(G, source):
+        t = term(source)
+        _in_graph(G, t, "ancestors")
+        reach_theory().register(G.N)
+        N = G.N
+        return SSet.define("ancestors", Id, lambda v: z3.And(Reach(N, v, t), v != t))
+
+    @staticmethod
+    def descendants(G, source):
+        t = term(source)
+        _in_graph(G, t, "descendants")
+        reach_theory().register(G.N)
+        N = G.N
+        s = SSet(Id, z3.Lambda([bv("v!L", Id)], z3.And(Reach(N, t, bv("v!L", Id)), bv("v!L", Id) != t)), C.fresh("c_desc", I), "descendants")
+        return s
+
+    @staticmethod
+    def induced_subgraph(G, nbunch):
+        return G.subgraph(nbunch)
+
+
+def graph_subgraph(self, nbunch):
+    """G.subgraph(S) / nx.induced_subgraph(G, S): a view on the induced sub-graph, created by `G.__class__()`:
+    a *fresh* instance whose DiGraphEx tables are the empty defaults (this is what loses the tables)"""
+    s = sym.as_set(nbunch, Id)
+    g = type(self)(name="view")
+    v = bv("v!sg", Id)
+    C.assume(z3.ForAll([v], g.N[v] == z3.And(self.N[v], s.mem(v))), g.cN <= self.cN)
+    g.is_view = True
+    _empty_tables(g)
+    return g
+
+
+def _empty_tables(g):
+    g.compound_priority = SMap(Id, I, None, z3.K(Id, z3.IntVal(0)), default=z3.IntVal(0), name="compound_priority")
+    g.debug = SMap(Id, B, None, z3.K(Id, z3.BoolVal(False)), default=z3.BoolVal(False), name="debug")
+    g.setup = SMap(Id, B, None, z3.K(Id, z3.BoolVal(False)), default=z3.BoolVal(False), name="setup")
+    g.tag = SMap(Id, sym.Val, None, z3.K(Id, sym.none), default=sym.none, name="tag")
+
+
+def graph_copy(self):
+    """G.copy(): a fresh independent graph of the same class with the same nodes / edges (tables: class defaults)"""
+    g = type(self)(N=self.N, cN=self.cN, name="copy")
+    _empty_tables(g)
+    g.owner = "fresh"
+    return g
+
+
+SGraph.subgraph = graph_subgraph
+SGraph.copy = graph_copy
+
+
+def deepcopy_graph(g):
+    """copy.deepcopy of a DiGraphEx: equal, unshared (tables included)"""
+    n = type(g)(N=g.N, cN=g.cN, name="deepcopy", tables=dict(compound_priority=g.compound_priority.clone(), debug=g.debug.clone(), setup=g.setup.clone(), tag=g.tag.clone()))
+    n.owner = "fresh"
+    return n
+
+
+def vc_chain(*its):
+    """itertools.chain: of one iterable it is that iterable; `chain(*X)` over a symbolic collection of collections
+    is their flattening"""
+    if len(its) == 1:
+        return its[0]
+    raise Unsupported("chain of several iterables")
+
+
+def vc_chain_star(star):
+    col = star._vc_iter() if hasattr(star, "_vc_iter") else None
+    if col is None:
+        raise Unsupported("chain(*concrete)")
+    n = bv("n!ch", col.sort)
+    inner = col.elem(n)
+    mem = (lambda w: inner.s.mem(w)) if isinstance(inner, SList) else (lambda w: inner.mem(w)) if isinstance(inner, SSet) else (lambda w: inner._vc_iter().pred(w)) if hasattr(inner, "_vc_iter") else None
+    if mem is None:
+        raise Unsupported("chain(*X): elements are not collections")
+    esort = inner.s.sort if isinstance(inner, SList) else inner.sort if isinstance(inner, SSet) else inner._vc_iter().sort
+    return SIter(esort, lambda w: z3.Exists([n], z3.And(col.pred(n), mem(w))), lambda w: wrap(w), count=None, distinct=False)
+
+
+vc_chain._vc_star = False
+
+
+def union_all(base, star):
+    """set().union(*X) over a symbolic collection X of sets"""
+    flat = vc_chain_star(star)
+    s = flat.to_set("union_all")
+    return base.union(s) if base.sort is not None else s
